@@ -13,6 +13,8 @@ Inductive ritem := RRec (x split : N) (kvs : list kev) | RMark (m : marker).
 Inductive case :=
 | RC (nops kgc mx : N) (delay : bool) (input : list ritem)
      (obs : list (list (list ev)))      (* per operator: the HandleEventBatch arguments in call order *)
+     (wms : list (list N))              (* per operator: the values of the delivered watermarks, read at delivery: q = "max event
+                                           time - 1ns is the time of the q-th record read", 0 = no event yet *)
      (bad : bool).                      (* overlapping calls to one operator, or the run exceeded the guard time *)
 
 Fixpoint list_eqb {A} (eqb : A -> A -> bool) (a b : list A) : bool :=
@@ -60,7 +62,7 @@ Fixpoint cuts_ok (o e : list (marker * list ev)) : bool :=
   end.
 
 Section Case.
-  Variables (nops kgc mx : N) (delay : bool) (input : list ritem) (obs : list (list (list ev))).
+  Variables (nops kgc mx : N) (delay : bool) (input : list ritem) (obs : list (list (list ev))) (wms : list (list N)).
 
   Definition kbtab : list (N * (N * list kev)) :=
     flat_map (fun it => match it with RRec x sp kvs => [(x, (sp, kvs))] | RMark _ => [] end) input.
@@ -114,6 +116,25 @@ Section Case.
   Definition markers_complete : bool :=
     forallb (fun i => Nat.eqb (length (cuts [] (stream i))) (length (cuts [] idl))) (seq 0 n_ops).
 
+  (* watermark values: a watermark is stamped when the joiner reaches it, i.e. (placeholders!) with the newest event time of
+     the records read before the tick; the handler stamps the q-th record read with time q, so the value is the number of
+     the last record before the tick that produced a keyed event. Delivered values are read at delivery time. *)
+  Fixpoint wm_expected (q cur : N) (l : list ritem) : list N :=
+    match l with
+    | [] => []
+    | RRec _ _ kvs :: l' => wm_expected (q + 1) (match kvs with [] => cur | _ => q + 1 end) l'
+    | RMark Wm :: l' => cur :: wm_expected q cur l'
+    | RMark _ :: l' => wm_expected q cur l'
+    end.
+  Fixpoint prefixN (a b : list N) : bool :=
+    match a, b with
+    | [], _ => true
+    | x :: a', y :: b' => (x =? y) && prefixN a' b'
+    | _ :: _, [] => false
+    end.
+  Definition wm_values_ok : bool :=
+    forallb (fun i => prefixN (nth i wms []) (wm_expected 0 0 input)) (seq 0 n_ops).
+
   Definition check (bad : bool) : list N :=
     (if Nat.eqb (length obs) n_ops then [] else [3]) ++
     (if batch_sizes_ok then [] else [2]) ++
@@ -121,6 +142,7 @@ Section Case.
     (if routed_ok then [] else [11]) ++
     (if order_ok then [] else [12]) ++
     (if markers_ok then [] else [13]) ++
+    (if wm_values_ok then [] else [15]) ++
     (if bad then [14] else []) ++
     (if nothing_missing && markers_complete then (if model_agrees then [] else [1])
      else if negb delay && model_agrees && no_dup_no_foreign then [100]
@@ -130,7 +152,28 @@ End Case.
 
 Definition nodup (l : list N) : list N := fold_right (fun c acc => if existsb (N.eqb c) acc then acc else c :: acc) [] l.
 Definition check_case (c : case) : list N :=
-  match c with RC nops kgc mx delay input obs bad => nodup (check nops kgc mx delay input obs bad) end.
+  match c with RC nops kgc mx delay input obs wms bad => nodup (check nops kgc mx delay input obs wms bad) end.
 
 Definition run (cases : list (N * case)) : list (N * N) :=
   flat_map (fun ic => map (fun code => (fst ic, code)) (check_case (snd ic))) cases.
+
+(* ---------------------------------------------------------------- mode c05: routing of fan-out records *)
+
+(* every keyed event an operator received, as (key, index of that operator); [produced] = number of keyed events the
+   key-by handler produced *)
+Inductive case05 := RK (nops kgc produced : N) (evs : list (list N * N)).
+
+Definition check_case05 (c : case05) : list N :=
+  match c with
+  | RK nops kgc produced evs =>
+      let ranges := kg_ranges kgc nops in
+      (* model: the operator index is the router's range_index *)
+      (if forallb (fun ko => snd ko =? range_index kgc nops (fst ko)) evs then [] else [50]) ++
+      (if N.of_nat (length evs) =? produced then [] else [51]) ++
+      (* spec: the receiving operator's key-group range contains murmur(key) mod count *)
+      (if forallb (fun ko => includes_kg (nth (N.to_nat (snd ko)) ranges (0, 0)) (murmur_hash (fst ko) 0 mod kgc)) evs
+       then [] else [150])
+  end.
+
+Definition run05 (cases : list (N * case05)) : list (N * N) :=
+  flat_map (fun ic => map (fun code => (fst ic, code)) (check_case05 (snd ic))) cases.
